@@ -174,6 +174,10 @@ class KernelDomain(IndexDomain):
                 return self._map(b, lambda e: it.binop(op, a, e, node))
             if isinstance(a, Vec) and isinstance(b, Vec) and a.idx == b.idx and a.axis == b.axis:
                 return Vec(it.binop(op, a.elem, b.elem, node), a.n, a.idx, a.axis)
+            if isinstance(a, Vec) and isinstance(b, Vec) and {a.axis, b.axis} == {0, 1} and a.idx != b.idx:
+                # column[:, newaxis] (op) row[newaxis, :]: broadcasting spells the outer combination np.outer spells for a product
+                col, row = (a, b) if a.axis == 0 else (b, a)
+                return Mat(it.binop(op, a.elem, b.elem, node), col.idx, row.idx, col.n, row.n)
             if isinstance(a, Mat) and isinstance(b, Mat) and (a.idx0, a.idx1) == (b.idx0, b.idx1):
                 return Mat(it.binop(op, a.elem, b.elem, node), a.idx0, a.idx1, a.n0, a.n1)
             if isinstance(a, Shaped) and isinstance(b, Mat) and isinstance(op, ast.Mult) or isinstance(b, Shaped) and isinstance(a, Mat) and isinstance(op, ast.Mult):
